@@ -187,6 +187,9 @@ func (r *decideRun) eval1(v ssa.Value) AV {
 	if a, ok := r.oracle(v); ok {
 		return a
 	}
+	if a, ok := r.foldValue(v); ok {
+		return a
+	}
 	switch x := v.(type) {
 	case *ssa.Const:
 		if x.IsNil() {
@@ -324,7 +327,21 @@ func (r *decideRun) eval1(v ssa.Value) AV {
 		}
 		return r.fail("extract from %s", t)
 	case *ssa.Call:
+		if a, ok := r.foldCall(x); ok {
+			return a
+		}
 		if bi, isBuiltin := x.Call.Value.(*ssa.Builtin); isBuiltin {
+			if bi.Name() == "len" && len(x.Call.Args) == 1 {
+				saved := r.err
+				a := r.eval(x.Call.Args[0])
+				r.err = saved
+				if str, isS := avString(a); isS {
+					return avInt(int64(len(str)))
+				}
+				if a.Kind == "list" {
+					return avInt(int64(len(a.Tup)))
+				}
+			}
 			if (bi.Name() == "len" || bi.Name() == "cap") && len(x.Call.Args) == 1 {
 				if n, ok := staticLen(x.Call.Args[0], 0); ok {
 					return avInt(n)
@@ -548,6 +565,8 @@ func avEqual(a, b AV) (bool, bool) {
 		case "func":
 			// a decided function value (closure, function reference) is never nil
 			return false, x.Fn != nil
+		case "list", "regexp":
+			return false, true
 		}
 		return false, false
 	}
